@@ -13,6 +13,7 @@ use walkdir::WalkDir;
 
 use crate::{
     backend::{BytesList, FileType, ReadBackend, WriteBackend},
+    crypto::hasher::hash,
     error::{ErrorKind, RusticError, RusticResult},
     id::Id,
     repofile::configfile::RepositoryId,
@@ -96,7 +97,11 @@ impl ReadBackend for CachedBackend {
     fn read_full(&self, tpe: FileType, id: &Id) -> RusticResult<Bytes> {
         if tpe.is_cacheable() {
             match self.cache.read_full(tpe, id) {
-                Ok(Some(data)) => return Ok(data),
+                // The id of a cacheable file is the hash of its contents: only use cache entries
+                // which are intact. Truncated or otherwise damaged entries are treated as a
+                // cache miss and get overwritten by the file read from the backend.
+                Ok(Some(data)) if hash(&data) == *id => return Ok(data),
+                Ok(Some(_)) => warn!("ignoring damaged cache entry {tpe:?},{id}"),
                 Ok(None) => {}
                 Err(err) => warn!(
                     "Error in cache backend reading {tpe:?},{id}: {}",
